@@ -295,7 +295,8 @@ def main():
         if c.src in ("slice", "nested") or c.names[1] == "rev":
             chosen.append(c)
     if args.tier == "quick":
-        chosen += rng.sample(level2, 8)
+        light2 = [c for c in level2 if not any(a in c.names for a in ("flat_map", "flatten"))]
+        chosen += rng.sample(light2, 8)   # flat_map/flatten two-adapter chains are too costly to sample blindly in the quick tier
     else:
         chosen += level1 + level2 + rng.sample(level3, min(150, len(level3)))
     # always include the shapes named by the finding and the documented exceptions
